@@ -54,6 +54,7 @@ pub struct Ctx {
     known_hits: BTreeMap<String, u64>,
     machinery_errors: Vec<String>,
     verif_dir: PathBuf,
+    seen_keys: std::collections::BTreeSet<String>,
 }
 
 pub const MAX_SAMPLES: usize = 12;
@@ -142,6 +143,7 @@ impl Ctx {
             known_hits: BTreeMap::new(),
             machinery_errors: Vec::new(),
             verif_dir,
+            seen_keys: Default::default(),
         }
     }
 
@@ -172,6 +174,19 @@ impl Ctx {
         let d = self.verif_dir.join("scratch").join(format!("{}-{}", self.id, std::process::id()));
         let _ = std::fs::create_dir_all(&d);
         d
+    }
+    /// Scratch directory for database files that many worker processes write concurrently: on
+    /// the memory file system when there is one (fsync on the shared disk serialises the
+    /// workers), else under /verif/scratch. Created by the check, removed by the check.
+    pub fn scratch_dir_fast(&self) -> PathBuf {
+        let shm = PathBuf::from("/dev/shm");
+        if std::env::var("KV_NO_SHM").is_err() && shm.is_dir() {
+            let d = shm.join(format!("kv-{}-{}", self.id, std::process::id()));
+            if std::fs::create_dir_all(&d).is_ok() {
+                return d;
+            }
+        }
+        self.scratch_dir()
     }
 
     pub fn set(&mut self, k: &str, v: impl Into<Value>) {
@@ -213,6 +228,9 @@ impl Ctx {
             return;
         }
         self.violations_total += 1;
+        if std::env::var("KV_ALLKEYS").is_ok() && self.seen_keys.insert(key.to_string()) {
+            eprintln!("KEY {key}");
+        }
         if self.violations.len() < MAX_REPLAYS && !self.violations.iter().any(|v| v.key == key) {
             self.violations.push(Viol {
                 key: key.to_string(),
